@@ -65,6 +65,12 @@ fn scenario(sc: &Value) -> Value {
     let target_done = Arc::new(std::sync::atomic::AtomicBool::new(false));
     verif::set_actor(0);
     verif::emit("h.scenario", &[("id", id), ("streams", n as i64)]);
+    let onecpu = sc["onecpu"].as_bool().unwrap_or(false);
+    if onecpu {
+        // the CPU this thread is running on right now (the scheduler put us there: it is not the busiest one)
+        let cpu = unsafe { libc::sched_getcpu() };
+        pin_all_threads(Some(if cpu >= 0 { cpu as usize } else { 0 }));
+    }
     // stalls: hold a thread for a while at a hook point (between queueing a route and waking the routing thread,
     // in the routing thread between forwarding a message / installing a route and its next step)
     let stalls: std::collections::HashMap<String, u64> = sc["stalls"]
@@ -138,7 +144,21 @@ fn scenario(sc: &Value) -> Value {
                 jitter(&mut rng);
             }
             verif::emit("h.tostream", &[("s", s as i64)]);
+            if onecpu {
+                // the converting thread runs in the idle scheduling class on the CPU it shares with the routing thread:
+                // whenever it wakes that thread up (a wake-up message), it is preempted on the spot
+                unsafe {
+                    let p = libc::sched_param { sched_priority: 0 };
+                    libc::sched_setscheduler(0, libc::SCHED_IDLE, &p);
+                }
+            }
             let mut stream = rx.to_stream();
+            if onecpu {
+                unsafe {
+                    let p = libc::sched_param { sched_priority: 0 };
+                    libc::sched_setscheduler(0, libc::SCHED_OTHER, &p);
+                }
+            }
             verif::emit("h.tostream.done", &[("s", s as i64)]);
             let _ = conv_tx.send(());
             let t_conv = std::time::Instant::now();
@@ -249,6 +269,9 @@ fn scenario(sc: &Value) -> Value {
         }
     }
     verif::set_gate_hook(None);
+    if onecpu {
+        pin_all_threads(None);
+    }
     verif::emit("h.scenario.end", &[("id", id)]);
     let r = results.lock().unwrap().clone();
     json!({"id": id, "hang": hang, "streams": r})
@@ -269,6 +292,32 @@ fn with_stream_first(stream: &mut ipc_channel::asynch::IpcStream<u64>) -> Option
                 }
                 std::thread::sleep(Duration::from_millis(1));
             },
+        }
+    }
+}
+
+/// Pin every thread of this process (the lazily created routing thread included) to one CPU, or release them again.
+fn pin_all_threads(cpu: Option<usize>) {
+    let ncpu = unsafe { libc::sysconf(libc::_SC_NPROCESSORS_CONF) }.max(1) as usize;
+    let mut set: libc::cpu_set_t = unsafe { std::mem::zeroed() };
+    unsafe {
+        libc::CPU_ZERO(&mut set);
+        match cpu {
+            Some(c) => libc::CPU_SET(c, &mut set),
+            None => {
+                for c in 0..ncpu.min(1024) {
+                    libc::CPU_SET(c, &mut set);
+                }
+            },
+        }
+    }
+    if let Ok(rd) = std::fs::read_dir("/proc/self/task") {
+        for e in rd.flatten() {
+            if let Ok(tid) = e.file_name().to_string_lossy().parse::<i32>() {
+                unsafe {
+                    libc::sched_setaffinity(tid, std::mem::size_of::<libc::cpu_set_t>(), &set);
+                }
+            }
         }
     }
 }
